@@ -7,8 +7,9 @@
 (* A request is a raw path (WebChars units, begins with "/"), an optional  *)
 (* query and a method.  The expectation is a record                        *)
 (*   [mode, st, loc]                                                       *)
-(*   mode "exact":  the response has status st and Location loc (st = 200, *)
-(*                  loc = <<>>: no redirect, the handler runs)             *)
+(*   mode "exact":  the response has status st and Location loc            *)
+(*   mode "noredirect": the response is not a redirect (the handler runs,  *)
+(*                  or the method is refused)                              *)
 (*   mode "safe":   the redirect the decorator would naively build (loc)   *)
 (*                  is NOT a same-host path; any response is acceptable    *)
 (*                  that is not a redirect or whose Location is safe       *)
@@ -58,10 +59,12 @@ Uri(raw, hasq, q) == Wire(raw) \o QPart(hasq, q)
 
 Exact(st, loc) == [mode |-> "exact", st |-> st, loc |-> loc]
 Derived(st, loc) == IF Safe(loc) THEN Exact(st, loc) ELSE [mode |-> "safe", st |-> 0, loc |-> loc]
-NoRedirect == Exact(200, <<>>)
+NoRedirect == [mode |-> "noredirect", st |-> 0, loc |-> <<>>]
 
 Expect(c, m, raw, hasq, q) ==
     LET p == Wire(raw) IN
+    IF m \notin {"GET", "HEAD"} THEN NoRedirect      \* the decorators only redirect safe methods (404 / 403 / 405 otherwise)
+    ELSE
     CASE c.kind = "removeslash" ->
             IF EndsWith(p, <<SLASH>>) /\ RStrip(p, SLASH) # <<>>
             THEN Derived(301, RStrip(p, SLASH) \o QAppend(hasq, q)) ELSE NoRedirect
@@ -77,6 +80,7 @@ Expect(c, m, raw, hasq, q) ==
 (* conformance relation; obs = [st, loc] (loc = <<>> when there is no Location header) *)
 Accept(exp, obs) ==
     CASE exp.mode = "exact" -> obs.st = exp.st /\ obs.loc = exp.loc
+      [] exp.mode = "noredirect" -> ~IsRedirect(obs.st)
       [] exp.mode = "safe" -> ~IsRedirect(obs.st) \/ Safe(obs.loc)
       [] exp.mode = "ifredirect" -> IsRedirect(obs.st) => /\ Safe(obs.loc)
                                                           /\ (Safe(exp.loc) => obs.loc = exp.loc)
